@@ -132,3 +132,48 @@ func TestReplay(t *testing.T) {
 	}
 	fmt.Printf("REPLAY-PASSES check=%s\n", ff.Check)
 }
+
+// ExpectCase is a plain regression case: sources, context and the output the property
+// demands (hand-derived from the property text, e.g. 1 + 2 * 3 * 4 = 25). It is the form in
+// which shrunk failures of repaired defects are kept in known_findings.json.
+type ExpectCase struct {
+	Templates map[string]string `json:"templates"`
+	Ctx       *E                `json:"ctx,omitempty"` // hash literal
+	Want      string            `json:"want"`
+	WantErr   bool              `json:"want_err,omitempty"`
+	Twice     bool              `json:"twice,omitempty"` // render twice on the same engine, both must match
+}
+
+func checkExpect(c ExpectCase) error {
+	var ctx map[string]interface{}
+	if c.Ctx != nil {
+		ctx, _ = litToGo(c.Ctx).(map[string]interface{})
+	}
+	e := newEngine(c.Templates)
+	NewSpies().Install(e)
+	n := 1
+	if c.Twice {
+		n = 2
+	}
+	for i := 0; i < n; i++ {
+		r := render(e, "main", ctx)
+		if r.Panic != "" {
+			return fmt.Errorf("render %d panicked: %s", i+1, r.Panic)
+		}
+		if c.WantErr {
+			if r.Err == "" {
+				return fmt.Errorf("render %d: expected an error, got output %s", i+1, q(r.Out))
+			}
+			continue
+		}
+		if r.Err != "" {
+			return fmt.Errorf("render %d: unexpected error %s (want %s)", i+1, firstLine(r.Err), q(c.Want))
+		}
+		if r.Out != c.Want {
+			return fmt.Errorf("render %d: got %s, want %s", i+1, q(r.Out), q(c.Want))
+		}
+	}
+	return nil
+}
+
+func init() { reg("expect", checkExpect) }
